@@ -5,7 +5,7 @@ import random
 KEY_POOL = [b'a', b'b', b'c', b'd', b'aa', b'ab', b'B', b'_x', b'k1', b'z', b'a-b', b'\xc3\xa9', b'Z', b'10', b'9']
 STR_POOL = [b'x', b'y', b'abc', b'', b'a b', b'X', b'10', b'ab', b'bc']
 NUM_POOL = [0.0, 1.0, 2.0, 3.0, -1.0, 0.5, 1.5, 10.0, 100.0, -2.5, 1e300, 2.0 ** 53, 0.1]
-JNUM_POOL = ['0', '1', '2', '3', '-1', '0.5', '1.5', '10', '100', '-2.5', '1e2', '1.0', '2.50', '1E1', '0.1']
+JNUM_POOL = ['0', '1', '2', '3', '-1', '0.5', '1.5', '10', '100', '-2.5', '1e2', '1.0', '2.50', '1E1', '0.1', '1e400', '-1e999']
 FILTER_FUNCS = ['twice', 'wrap', 'tn', 'fail', 'fstr', 'id']
 AGG_FUNCS = ['cnt', 'first', 'arr', 'afail', 'amax']
 
@@ -203,7 +203,8 @@ class G:
             if vals:
                 v = r.choice(vals)
                 if v[0] == 'j':
-                    return ('n', float(v[1]))
+                    x = float(v[1])
+                    return ('n', x if abs(x) < 1e308 else 1.0)
                 return v
         k = r.random()
         if k < 0.45:
@@ -556,7 +557,7 @@ def refs_family(g, jnum=False, opaque_kinds=None):
     sp = Spelling()
     lits = [p for p in pool if p[0] in ('n', 's', 'b', 'z')] + [('n', 2.0)]
     if jnum:
-        lits += [('n', float(p[1])) for p in pool if p[0] == 'j']
+        lits += [('n', float(p[1])) for p in pool if p[0] == 'j' and abs(float(p[1])) < 1e308]
 
     def operand():
         k = r.random()
